@@ -71,7 +71,15 @@ pub fn decomposes(t: &str, bodies: &[&str], e: &str, hyphen_ok: &HashSet<usize>)
         }
         let mut starts = Vec::new();
         if k == 0 {
-            starts.push(c);
+            // before the first slice only line-ending sequences may be
+            // uncovered (a space must lie between two slices or after the
+            // last one)
+            let mut i = c;
+            starts.push(i);
+            while t[i..].starts_with(e) {
+                i += e.len();
+                starts.push(i);
+            }
         } else {
             gap_targets(t, c, e, &mut starts);
         }
@@ -134,7 +142,7 @@ pub fn check(c: &Case) -> Outcome {
     } else {
         textwrap::wrap(t, spec.options())
     };
-    ensure!(!lines.is_empty(), "wrap({}) returned no lines", show(t));
+    // (an empty result is C09's business: "never fewer lines than the input")
     let custom = spec.split.is_custom();
     let mut bodies: Vec<&str> = Vec::with_capacity(lines.len());
     let lo = t.as_ptr() as usize;
